@@ -43,3 +43,31 @@ func (t *VerifTruncWriter) Held() []byte {
 
 // VerifWriteBufLen returns len(c.writeBuf) (write buffer size + maxFrameHeaderSize).
 func VerifWriteBufLen(c *Conn) int { return len(c.writeBuf) }
+
+// ---- opening handshake (util.go, server.go, client.go) ----
+
+// VerifOctetType is octetTypes[b] (bit 0: token octet, bit 1: space octet).
+func VerifOctetType(b byte) byte { return octetTypes[b] }
+
+func VerifSkipSpace(s string) string { return skipSpace(s) }
+
+func VerifNextToken(s string) (string, string) { return nextToken(s) }
+
+func VerifNextTokenOrQuoted(s string) (string, string) { return nextTokenOrQuoted(s) }
+
+// VerifTokenListContainsValue is tokenListContainsValue over header[name] = values.
+func VerifTokenListContainsValue(name string, values []string, value string) bool {
+	return tokenListContainsValue(map[string][]string{name: values}, name, value)
+}
+
+// VerifParseExtensions is parseExtensions over the given Sec-Websocket-Extensions values.
+func VerifParseExtensions(values []string) []map[string]string {
+	return parseExtensions(map[string][]string{"Sec-Websocket-Extensions": values})
+}
+
+func VerifComputeAcceptKey(challengeKey string) string { return computeAcceptKey(challengeKey) }
+
+// VerifCompression reports which per-message-deflate functions a connection has installed.
+func VerifCompression(c *Conn) (write, read bool) {
+	return c.newCompressionWriter != nil, c.newDecompressionReader != nil
+}
